@@ -1261,7 +1261,14 @@ impl NamingActor {
             NamingRaftReq::RemoveInstance(instance_key) => {
                 let service_key = instance_key.get_service_key();
                 let instance_short_key = instance_key.get_short_key();
-                self.remove_instance(&service_key, &instance_short_key, None);
+                // 只处理永久实例: an ephemeral registration that has taken the address over is not removed
+                let is_ephemeral = self
+                    .get_instance(&service_key, &instance_short_key)
+                    .map(|i| i.ephemeral)
+                    .unwrap_or(false);
+                if !is_ephemeral {
+                    self.remove_instance(&service_key, &instance_short_key, None);
+                }
                 Ok(NamingRaftResult::None)
             }
         }
